@@ -3,7 +3,8 @@
  * op file (same grammar as lean/Driver/Iter.lean):
  *   W <expr>           build the iterable on the real library, walk it with `foreach` (iter_init / iter_next) and backwards
  *                      (iter_last / iter_prev), ask len and get(0 … len-1).  Prints
- *                        O f=[items] fe=<term|exc|fuel> b=[items] be=<…> len=<n|-> get=[values|!]     or  O construct=<Exception>
+ *                        O f=[items] fe=<term|exc|fuel|stray> b=[items] be=<…> len=<n|-> get=[values|!] gx=[get(-1) get(-len) get(-len-1) get(len)]
+ *                      or  O construct=<Exception>
  *                      (when a walk is cut by the cap only its first 16 items are printed)
  *   V <expr>           as W, the top-level view constructed with the stack macros range(…) slice(…) reverse(…) zip(…)
  *                      enumerate(…) filter(…) map(…) of Cello.h
@@ -11,6 +12,17 @@
  *   expr ::= (array v*) | (list v*) | (tuple id*) | (table s*)  s = `.` | key   — slot array written white-box
  *          | (tree S)  S = `.` | (S k S)  — nodes linked white-box | (rtree k*)  — built with set()
  *          | (range a*) | (slice E a*) | (reverse E) | (zip E*) | (enum E) | (filter E m r) | (map E a b)     a = int | `_`
+ *          | (mut list (v*) sop*) | (mut array (v*) sop*) | (mut table (k*) kop*) | (mut tree (k*) kop*)
+ *              — a container that is MUTATED through the public interface before it is iterated:
+ *              sop ::= (push v) | (pop) | (push_at v i) | (pop_at i) | (rem v) | (put i v) | (concat v*) | (resize n)
+ *              kop ::= (set k) | (rem k) | (resize n)          (the value stored with key k is 10*k)
+ *              a mutation that raises is caught and the history goes on
+ *   L <mut expr>       white-box layout after the history, with the outcome of every mutation (`.` ok, I V K F = exception):
+ *                        O links out=:… nitems= head= tail= vals=[…] prev=[…]   List: the chain from head along next; head, tail and
+ *                                                                               every prev word by POSITION in that chain (`-` NULL, `?` elsewhere)
+ *                        O store out=:… nitems= nslots= vals=[…]                Array
+ *                        O slots out=:… nitems= nslots= [i:key …]               Table
+ *                        O tree out=:… nitems= keys=[…]                         Tree: in-order over the child pointers
  *
  * Every op runs in a forked worker (a Slice hands `Terminal` to the underlying iterable as a cursor — undefined
  * behaviour for most containers): when the worker dies (ASan / UBSan report, signal, alarm) the parent prints `O crash`
@@ -27,7 +39,16 @@
  *   kf-c11-tuple-dup    walk over a Tuple holding the same object twice (F13)
  *   kf-c11-slice        Slice iteration outside the parameter region in which it is right (F11) — region: slice_in_region()
  *   kf-c11-zip-back     backward walk over a Zip of inputs of unequal length (F12)
- *   c11-forward c11-backward c11-len c11-get c11-crash c11-construct   anything else */
+ *   c11-forward c11-backward c11-len c11-get c11-crash c11-construct   anything else
+ * For a container at the top level of a `W` line the cursors are checked BEFORE they are dereferenced: the k-th forward
+ * cursor of an Array / List must be the pointer get(k) returns, the k-th backward cursor must be the (n-1-k)-th forward one;
+ * a cursor that is neither ends the walk as `stray` (c11-forward / c11-backward) without being read.
+ * Mutated containers: the reference sequence comes from a shadow (a plain C array of values / set of keys updated by the
+ * documented meaning of every mutation; Tree = the keys in descending order; Table = the occupied slots in slot order,
+ * whose keys must be exactly the shadow's); the outcome of every mutation is compared with the shadow's (c11-mutation);
+ * `L` also checks the representation directly (c11-representation): List prev(head) = next(tail) = NULL, prev(next(x)) = x,
+ * tail = last node, nitems = number of nodes; Tree child / parent links, key order and nitems; Table occupied slots = nitems;
+ * Array nitems <= nslots. */
 #include "common.h"
 #include <sys/mman.h>
 #include <signal.h>
@@ -40,10 +61,15 @@ const char* __ubsan_default_options(void) { return "symbolize=0:fast_unwind_on_f
 #define SHOWN_ON_FUEL 16
 
 /* ------------------------------------------------------------------------------------------------ expressions */
-enum { K_ARRAY, K_LIST, K_TUPLE, K_TABLE, K_TREE, K_RTREE, K_RANGE, K_SLICE, K_ZIP, K_ENUM, K_FILTER, K_MAP };
+enum { K_ARRAY, K_LIST, K_TUPLE, K_TABLE, K_TREE, K_RTREE, K_RANGE, K_SLICE, K_ZIP, K_ENUM, K_FILTER, K_MAP, K_MUT };
+enum { M_LIST, M_ARRAY, M_TABLE, M_TREE };
+enum { OP_PUSH, OP_POP, OP_PUSH_AT, OP_POP_AT, OP_REM, OP_PUT, OP_CONCAT, OP_RESIZE, OP_SET };
+typedef struct { int op; int64_t a, b; int64_t* vs; size_t nvs; } MOp;
 typedef struct TN { struct TN *l, *r; int64_t k; } TN;
 typedef struct Node {
   int kind;
+  int mkind; MOp* ops; size_t nops; char* out;      /* K_MUT: the history and, once built, the outcome of every mutation */
+  int64_t* slotkeys; size_t nslotkeys; int has_slotkeys;   /* K_MUT table, once built: the keys in slot order */
   int64_t* v; int* has; size_t nv;       /* atoms; has[i] == 0: `_` / `.` */
   struct Node* kid[8]; size_t nk;
   TN* tree;
@@ -90,10 +116,48 @@ static int parse_tree(TN** out) {
   if (strcmp(nextt(), ")") != 0) return 0;
   *out = n; return 1;
 }
+static int parse_mop(int keyed, MOp* o) {     /* after `(`: name args `)` */
+  const char* h = nextt(); memset(o, 0, sizeof *o);
+  int need = -1;
+  if (!keyed) {
+    if (!strcmp(h, "push")) { o->op = OP_PUSH; need = 1; } else if (!strcmp(h, "pop")) { o->op = OP_POP; need = 0; }
+    else if (!strcmp(h, "push_at")) { o->op = OP_PUSH_AT; need = 2; } else if (!strcmp(h, "pop_at")) { o->op = OP_POP_AT; need = 1; }
+    else if (!strcmp(h, "rem")) { o->op = OP_REM; need = 1; } else if (!strcmp(h, "put")) { o->op = OP_PUT; need = 2; }
+    else if (!strcmp(h, "resize")) { o->op = OP_RESIZE; need = 1; }
+    else if (!strcmp(h, "concat")) {
+      o->op = OP_CONCAT; size_t cap = 8; o->vs = malloc(cap * sizeof(int64_t));
+      for (;;) { const char* t = nextt(); if (!*t) return 0; if (!strcmp(t, ")")) return 1; if (!is_int(t)) return 0;
+        if (o->nvs == cap) { cap *= 2; o->vs = realloc(o->vs, cap * sizeof(int64_t)); } o->vs[o->nvs++] = strtoll(t, NULL, 10); }
+    } else return 0;
+  } else {
+    if (!strcmp(h, "set")) { o->op = OP_SET; need = 1; } else if (!strcmp(h, "rem")) { o->op = OP_REM; need = 1; }
+    else if (!strcmp(h, "resize")) { o->op = OP_RESIZE; need = 1; } else return 0;
+  }
+  int64_t* dst[2] = { &o->a, &o->b };
+  for (int i = 0; i < need; i++) { const char* t = nextt(); if (!is_int(t) || (o->op == OP_RESIZE && *t == '-')) return 0; *dst[i] = strtoll(t, NULL, 10); }
+  return strcmp(nextt(), ")") == 0;
+}
 static Node* parse_expr(void) {
   if (strcmp(nextt(), "(") != 0) return NULL;
   const char* h = nextt();
   Node* n = calloc(1, sizeof(Node));
+  if (!strcmp(h, "mut")) {
+    n->kind = K_MUT; const char* k = nextt();
+    if (!strcmp(k, "list")) n->mkind = M_LIST; else if (!strcmp(k, "array")) n->mkind = M_ARRAY;
+    else if (!strcmp(k, "table")) n->mkind = M_TABLE; else if (!strcmp(k, "tree")) n->mkind = M_TREE; else return NULL;
+    if (strcmp(nextt(), "(") != 0 || !parse_atoms(n, NULL, 0)) return NULL;
+    size_t cap = 8; n->ops = malloc(cap * sizeof(MOp));
+    for (;;) {
+      const char* t = nextt();
+      if (!strcmp(t, ")")) break;
+      if (strcmp(t, "(") != 0) return NULL;
+      if (n->nops == cap) { cap *= 2; n->ops = realloc(n->ops, cap * sizeof(MOp)); }
+      if (!parse_mop(n->mkind >= M_TABLE, &n->ops[n->nops])) return NULL;
+      n->nops++;
+    }
+    n->out = calloc(n->nops + 1, 1);
+    return n;
+  }
   if (!strcmp(h, "array")) { n->kind = K_ARRAY; return parse_atoms(n, NULL, 0) ? n : NULL; }
   if (!strcmp(h, "list"))  { n->kind = K_LIST;  return parse_atoms(n, NULL, 0) ? n : NULL; }
   if (!strcmp(h, "tuple")) { n->kind = K_TUPLE; return parse_atoms(n, NULL, 1) ? n : NULL; }
@@ -168,6 +232,109 @@ static var tbuild(struct Tree* m, TN* t, var parent, size_t* cnt) {
   return node;
 }
 
+
+/* ------------------------------------------------------------------------------------------------ mutated containers */
+/* the shadow: a plain array of values (List, Array) or set of keys (Table, Tree) updated by the documented meaning of
+   every mutation; `exp` receives the expected outcome of each (`.` or the initial of the exception) */
+typedef struct { int64_t* v; size_t n, cap; } Sh;
+static void sh_ins(Sh* s, size_t at, int64_t x) {
+  if (s->n == s->cap) { s->cap = s->cap ? 2 * s->cap : 8; s->v = realloc(s->v, s->cap * sizeof(int64_t)); }
+  memmove(s->v + at + 1, s->v + at, (s->n - at) * sizeof(int64_t)); s->v[at] = x; s->n++;
+}
+static void sh_del(Sh* s, size_t at) { memmove(s->v + at, s->v + at + 1, (s->n - at - 1) * sizeof(int64_t)); s->n--; }
+static char sh_apply(Sh* s, int mkind, const MOp* o) {
+  int64_t n = (int64_t)s->n;
+  if (mkind == M_LIST || mkind == M_ARRAY) {
+    switch (o->op) {
+      case OP_PUSH: sh_ins(s, s->n, o->a); return '.';
+      case OP_POP: if (!n) return 'I'; s->n--; return '.';
+      case OP_PUSH_AT: {
+        int64_t i = o->b;
+        if (mkind == M_LIST) {           /* key 0: in front; otherwise before the EXISTING element i (negative: from the end) */
+          if (i == 0) { sh_ins(s, 0, o->a); return '.'; }
+          if (i < 0) i += n;
+          if (i < 0 || i >= n) return 'I';
+        } else {                         /* Array: any position 0..n, negative counted from the end of the result */
+          if (i < 0) i += n + 1;
+          if (i < 0 || i > n) return 'I';
+        }
+        sh_ins(s, (size_t)i, o->a); return '.';
+      }
+      case OP_POP_AT: { int64_t i = o->a; if (i < 0) i += n; if (i < 0 || i >= n) return 'I'; sh_del(s, (size_t)i); return '.'; }
+      case OP_REM: for (size_t i = 0; i < s->n; i++) if (s->v[i] == o->a) { sh_del(s, i); return '.'; } return 'V';
+      case OP_PUT: { int64_t i = o->a; if (i < 0) i += n; if (i < 0 || i >= n) return 'I'; s->v[i] = o->b; return '.'; }
+      case OP_CONCAT: for (size_t i = 0; i < o->nvs; i++) sh_ins(s, s->n, o->vs[i]); return '.';
+      case OP_RESIZE:
+        if ((int64_t)o->a < n) s->n = (size_t)o->a;                         /* both: drop the elements beyond n (0 empties) */
+        else if (mkind == M_LIST) while ((int64_t)s->n < o->a) sh_ins(s, s->n, 0);   /* List pads with zeroed elements; Array only reserves */
+        return '.';
+    }
+  } else {
+    size_t at = s->n; for (size_t i = 0; i < s->n; i++) if (s->v[i] == o->a) at = i;
+    switch (o->op) {
+      case OP_SET: if (at == s->n) sh_ins(s, s->n, o->a); return '.';
+      case OP_REM: if (at == s->n) return 'K'; sh_del(s, at); return '.';
+      case OP_RESIZE:
+        if (o->a == 0) { s->n = 0; return '.'; }
+        if (mkind == M_TREE) return 'F';
+        return (int64_t)o->a < n ? 'F' : '.';
+    }
+  }
+  return '?';
+}
+static Sh shadow_of(Node* n, char* exp) {
+  Sh s = { NULL, 0, 0 };
+  for (size_t i = 0; i < n->nv; i++) {
+    MOp o = { (n->mkind >= M_TABLE) ? OP_SET : OP_PUSH, n->v[i], 0, NULL, 0 };
+    sh_apply(&s, n->mkind, &o);
+  }
+  for (size_t i = 0; i < n->nops; i++) { char c = sh_apply(&s, n->mkind, &n->ops[i]); if (exp) exp[i] = c; }
+  if (exp) exp[n->nops] = 0;
+  return s;
+}
+static int cmp_i64(const void* a, const void* b);
+
+static char exc_char(var e) {
+  if (e is NULL) return '.';
+  if (e is IndexOutOfBoundsError) return 'I';
+  if (e is ValueError) return 'V';
+  if (e is KeyError) return 'K';
+  if (e is FormatError) return 'F';
+  return '?';
+}
+static void mut_apply(int mkind, var c, const MOp* o) {
+  switch (o->op) {
+    case OP_PUSH: push(c, $I(o->a)); break;
+    case OP_POP: pop(c); break;
+    case OP_PUSH_AT: push_at(c, $I(o->a), $I(o->b)); break;
+    case OP_POP_AT: pop_at(c, $I(o->a)); break;
+    case OP_REM: rem(c, $I(o->a)); break;
+    case OP_PUT: set(c, $I(o->a), $I(o->b)); break;
+    case OP_CONCAT: { var t = new_raw(Array, Int); for (size_t i = 0; i < o->nvs; i++) push(t, $I(o->vs[i])); concat(c, t); del_raw(t); break; }
+    case OP_RESIZE: resize(c, (size_t)o->a); break;
+    case OP_SET: set(c, $I(o->a), $I(10 * o->a)); break;
+  }
+  (void)mkind;
+}
+static var build_mut(Node* n) {
+  var c = NULL;
+  switch (n->mkind) {
+    case M_LIST: c = new_raw(List, Int); break;
+    case M_ARRAY: c = new_raw(Array, Int); break;
+    case M_TABLE: c = new_raw(Table, Int, Int); break;
+    default: c = new_raw(Tree, Int, Int); break;
+  }
+  for (size_t i = 0; i < n->nv; i++) { if (n->mkind >= M_TABLE) set(c, $I(n->v[i]), $I(10 * n->v[i])); else push(c, $I(n->v[i])); }
+  for (size_t i = 0; i < n->nops; i++) { var exc; V_TRY(exc, mut_apply(n->mkind, c, &n->ops[i])); n->out[i] = exc_char(exc); }
+  n->out[n->nops] = 0;
+  if (n->mkind == M_TABLE) {
+    struct Table* t = c; n->slotkeys = malloc((t->nslots + 1) * sizeof(int64_t)); n->nslotkeys = 0;
+    for (size_t i = 0; i < t->nslots; i++) if (Table_Key_Hash(t, i) isnt 0) n->slotkeys[n->nslotkeys++] = ((struct Int*)Table_Key(t, i))->val;
+    n->has_slotkeys = 1;
+  }
+  return c;
+}
+
 static var build(Node* n);
 static var args_tuple(var first, Node* n, var* arr) {   /* (first?, atoms…) as a Tuple living in the caller's frame */
   size_t k = 0;
@@ -223,6 +390,7 @@ static var build(Node* n) {
       struct Function* f = mkobj(Function, sizeof(struct Function)); f->func = funs[nclos_f++];
       return new_raw(Map, e, f);
     }
+    case K_MUT: return build_mut(n);
   }
   return NULL;
 }
@@ -312,6 +480,13 @@ static RL ref_of(Node* n) {
     }
     case K_FILTER: { RL u = ref_of(n->kid[0]); for (size_t i = 0; i < u.n; i++) if (n->p1 != 0 && emod(u.v[i].key, n->p1) == n->p2) rl_push(&out, u.v[i].key, u.v[i].s); break; }
     case K_MAP: { RL u = ref_of(n->kid[0]); for (size_t i = 0; i < u.n; i++) rl_int(&out, n->p1 * u.v[i].key + n->p2); break; }
+    case K_MUT: {
+      Sh s = shadow_of(n, NULL);
+      if (n->mkind == M_TREE) { if (s.n) qsort(s.v, s.n, sizeof(int64_t), cmp_i64); for (size_t i = s.n; i-- > 0; ) rl_int(&out, s.v[i]); }   /* descending */
+      else if (n->mkind == M_TABLE && n->has_slotkeys) { for (size_t i = 0; i < n->nslotkeys; i++) rl_int(&out, n->slotkeys[i]); }
+      else for (size_t i = 0; i < s.n; i++) rl_int(&out, s.v[i]);
+      free(s.v); break;
+    }
   }
   return out;
 }
@@ -327,6 +502,7 @@ static int def_has_len(Node* n) {
 static int def_has_get(Node* n) {
   switch (n->kind) {
     case K_FILTER: case K_TABLE: case K_TREE: case K_RTREE: return 0;
+    case K_MUT: return n->mkind == M_LIST || n->mkind == M_ARRAY;
     case K_MAP: case K_ENUM: case K_SLICE: return def_has_get(n->kid[0]);
     case K_ZIP: for (size_t i = 0; i < n->nk; i++) if (!def_has_get(n->kid[i])) return 0; return 1;
     default: return 1;
@@ -368,7 +544,7 @@ static int zip_unequal_in(Node* n, int need_slice, int under_slice) {
   for (size_t i = 0; i < n->nk; i++) if (zip_unequal_in(n->kid[i], need_slice, under_slice || n->kind == K_SLICE)) return 1;
   return 0;
 }
-enum { A_FWD, A_BWD, A_LEN, A_GET, A_CRASH, A_CONSTRUCT };
+enum { A_FWD, A_BWD, A_LEN, A_GET, A_CRASH, A_CONSTRUCT, A_MUT, A_LINKS };
 static const char* sig_for(Node* n, int aspect) {
   int walk = aspect == A_FWD || aspect == A_BWD || aspect == A_CRASH;
   if (walk && has_dup_tuple(n)) return "kf-c11-tuple-dup";
@@ -376,20 +552,39 @@ static const char* sig_for(Node* n, int aspect) {
   if (aspect == A_BWD && zip_unequal_in(n, 0, 0)) return "kf-c11-zip-back";
   if (walk && zip_unequal_in(n, 1, 0)) return "kf-c11-zip-back";
   switch (aspect) { case A_FWD: return "c11-forward"; case A_BWD: return "c11-backward"; case A_LEN: return "c11-len";
-                    case A_GET: return "c11-get"; case A_CRASH: return "c11-crash"; default: return "c11-construct"; }
+                    case A_GET: return "c11-get"; case A_CRASH: return "c11-crash"; case A_MUT: return "c11-mutation";
+                    case A_LINKS: return "c11-representation"; default: return "c11-construct"; }
 }
 
 /* ------------------------------------------------------------------------------------------------ walking */
 static char* got[CAP + 1]; static size_t ngot; static const char* gend;
+/* cursor checks for a container at the top level (see the header): `expect` = the pointers the cursors must be, in order
+   (NULL: no check); `gptr` records the cursors handed out */
+static var gptr[CAP + 1]; static var fptr[CAP + 1]; static size_t nfptr;
+static var* expect; static size_t nexpect;
+static int cursor_ok(var x) { return !expect || (ngot < nexpect && expect[ngot] is x); }
 static void do_fwd(var obj) {
   ngot = 0; gend = "term";
-  foreach (x in obj) { got[ngot++] = show_dup(x); if (ngot >= CAP) { gend = "fuel"; break; } }
+  foreach (x in obj) {
+    if (!cursor_ok(x)) { gend = "stray"; break; }
+    gptr[ngot] = x; got[ngot++] = show_dup(x); if (ngot >= CAP) { gend = "fuel"; break; }
+  }
 }
 static void do_bwd(var obj) {
   ngot = 0; gend = "term";
   var x = iter_last(obj);
-  while (x isnt Terminal) { got[ngot++] = show_dup(x); if (ngot >= CAP) { gend = "fuel"; break; } x = iter_prev(obj, x); }
+  while (x isnt Terminal) {
+    if (!cursor_ok(x)) { gend = "stray"; break; }
+    gptr[ngot] = x; got[ngot++] = show_dup(x); if (ngot >= CAP) { gend = "fuel"; break; }
+    x = iter_prev(obj, x);
+  }
 }
+static int raw_container(Node* n) {
+  return n->kind == K_ARRAY || n->kind == K_LIST || n->kind == K_TABLE || n->kind == K_TREE || n->kind == K_RTREE || n->kind == K_MUT;
+}
+static int positional(Node* n) { return n->kind == K_ARRAY || n->kind == K_LIST || (n->kind == K_MUT && n->mkind <= M_ARRAY); }
+static var getp[CAP + 1]; static size_t ngetp;
+static void do_getptrs(var obj) { size_t L = len(obj); ngetp = 0; for (size_t i = 0; i < L && i < CAP; i++) { getp[i] = get(obj, $I((int64_t)i)); ngetp = i + 1; } }
 static size_t glen; static int glen_ok;
 static void do_len(var obj) { glen = len(obj); glen_ok = 1; }
 static var gitem;
@@ -478,8 +673,22 @@ static void walk_obj(Node* n, var obj, size_t lineno) {
   var exc;
   RL ref = ref_of(n);
   ll = 0;
+  if (n->kind == K_MUT) {          /* the mutations themselves: outcome of each against the shadow; Table: the stored keys */
+    char* exp = malloc(n->nops + 1); Sh sh = shadow_of(n, exp);
+    if (strcmp(exp, n->out)) { snprintf(what, sizeof what, "outcomes of the mutations are :%s, by their documented meaning :%s", n->out, exp); deviation(n, A_MUT, lineno, what); }
+    if (n->mkind == M_TABLE && n->has_slotkeys) {
+      int64_t* a = malloc((n->nslotkeys + 1) * sizeof(int64_t)); memcpy(a, n->slotkeys, n->nslotkeys * sizeof(int64_t));
+      if (n->nslotkeys) qsort(a, n->nslotkeys, sizeof(int64_t), cmp_i64); if (sh.n) qsort(sh.v, sh.n, sizeof(int64_t), cmp_i64);
+      if (n->nslotkeys != sh.n || (sh.n && memcmp(a, sh.v, sh.n * sizeof(int64_t)))) { snprintf(what, sizeof what, "the slots hold %zu keys, the history leaves %zu (or other keys)", n->nslotkeys, sh.n); deviation(n, A_MUT, lineno, what); }
+      free(a);
+    }
+    free(exp); free(sh.v);
+  }
   /* forward */
+  expect = NULL;
+  if (positional(n)) { V_TRY(exc, do_getptrs(obj)); if (!exc) { expect = getp; nexpect = ngetp; } }
   V_TRY(exc, do_fwd(obj)); if (exc) gend = "exc";
+  nfptr = 0; if (raw_container(n) && !strcmp(gend, "term")) { for (size_t i = 0; i < ngot; i++) fptr[ngot - 1 - i] = gptr[i]; nfptr = ngot; }
   LP("f="); print_items(); LP(" fe=%s", gend);
   st_items += ngot;
   int bad = strcmp(gend, "term") != 0 || ngot != ref.n;
@@ -488,7 +697,10 @@ static void walk_obj(Node* n, var obj, size_t lineno) {
     deviation(n, A_FWD, lineno, what); }
   for (size_t i = 0; i < ngot; i++) free(got[i]);
   /* backward */
+  expect = NULL;
+  if (raw_container(n) && nfptr == ref.n && ref.n < CAP) { expect = fptr; nexpect = nfptr; }
   V_TRY(exc, do_bwd(obj)); if (exc) gend = "exc";
+  expect = NULL;
   LP(" b="); print_items(); LP(" be=%s", gend);
   st_items += ngot;
   bad = strcmp(gend, "term") != 0 || ngot != ref.n;
@@ -515,8 +727,99 @@ static void walk_obj(Node* n, var obj, size_t lineno) {
     }
     LP("]");
     if (gbad) deviation(n, A_GET, lineno, what);
-  } else LP(" get=-");
+    /* get at and beyond the ends: -1 (the last), -len (the first), -len-1 and len (must raise) */
+    int64_t probe[4] = { -1, -(int64_t)glen, -(int64_t)glen - 1, (int64_t)glen };
+    int checked = n->kind == K_ARRAY || n->kind == K_LIST || n->kind == K_TUPLE || n->kind == K_RANGE || (n->kind == K_MUT && n->mkind <= M_ARRAY);
+    LP(" gx=["); gbad = 0;
+    for (int q = 0; q < 4; q++) {
+      char b[512];
+      V_TRY(exc, gitem = get(obj, $I(probe[q])));
+      if (exc) snprintf(b, sizeof b, "!"); else show_into(gitem, b, sizeof b);
+      LP("%s%s", q ? " " : "", b);
+      if (checked && !gbad && glen == ref.n) {
+        const char* want = (probe[q] >= -(int64_t)ref.n && probe[q] < (int64_t)ref.n) ? ref.v[(probe[q] + (int64_t)ref.n) % (int64_t)ref.n].s : "!";
+        if (strcmp(b, want)) { gbad = 1; snprintf(what, sizeof what, "get(%lld) = %s on %zu elements, the definition has %s", (long long)probe[q], b, ref.n, !strcmp(want, "!") ? "no such element (IndexOutOfBoundsError)" : want); }
+      }
+    }
+    LP("]");
+    if (gbad) deviation(n, A_GET, lineno, what);
+  } else LP(" get=- gx=-");
   O("%s", line);
+}
+
+
+/* ------------------------------------------------------------------------------------------------ `L`: white-box layout */
+static size_t tree_inorder(struct Tree* m, var node, var parent, int64_t* out, size_t k, size_t cap, int* bad) {
+  if (node is NULL || k >= cap) return k;
+  if (Tree_Get_Parent(m, node) isnt parent) *bad = 1;
+  k = tree_inorder(m, *Tree_Left(m, node), node, out, k, cap, bad);
+  if (k < cap) out[k++] = ((struct Int*)Tree_Key(m, node))->val;
+  return tree_inorder(m, *Tree_Right(m, node), node, out, k, cap, bad);
+}
+static void pos_str(char* b, size_t cap, var p, var* chain, size_t cnt) {
+  if (p is NULL) { snprintf(b, cap, "-"); return; }
+  for (size_t i = 0; i < cnt; i++) if (chain[i] is p) { snprintf(b, cap, "%zu", i); return; }
+  snprintf(b, cap, "?");
+}
+static void op_layout_inner(Node* n, size_t lineno) {
+  static char what[512];
+  var obj = build(n);
+  ll = 0;
+  switch (n->mkind) {
+    case M_LIST: {
+      struct List* l = obj; static var chain[CAP + 8]; size_t cnt = 0; char b[32];
+      for (var item = l->head; item isnt NULL && cnt < l->nitems + 2 && cnt < CAP; item = *List_Next(l, item)) chain[cnt++] = item;
+      LP("links out=:%s nitems=%zu", n->out, l->nitems);
+      pos_str(b, sizeof b, l->head, chain, cnt); LP(" head=%s", b);
+      pos_str(b, sizeof b, l->tail, chain, cnt); LP(" tail=%s", b);
+      LP(" vals=["); for (size_t i = 0; i < cnt; i++) LP("%s%lld", i ? " " : "", (long long)((struct Int*)chain[i])->val); LP("]");
+      LP(" prev=["); for (size_t i = 0; i < cnt; i++) { pos_str(b, sizeof b, *List_Prev(l, chain[i]), chain, cnt); LP("%s%s", i ? " " : "", b); } LP("]");
+      /* the doubly-linked invariant, directly */
+      int bad = cnt != l->nitems;
+      if (cnt == 0) bad |= l->head isnt NULL || l->tail isnt NULL;
+      else {
+        bad |= *List_Prev(l, chain[0]) isnt NULL || l->tail isnt chain[cnt - 1] || (cnt == l->nitems && *List_Next(l, chain[cnt - 1]) isnt NULL);
+        for (size_t i = 1; i < cnt; i++) bad |= *List_Prev(l, chain[i]) isnt chain[i - 1];
+      }
+      if (bad) { snprintf(what, sizeof what, "List links after the history: not prev(head)=NULL, next(tail)=NULL, prev(next(x))=x, tail=last node, nitems=%zu nodes (chain of %zu)", l->nitems, cnt); deviation(n, A_LINKS, lineno, what); }
+      break;
+    }
+    case M_ARRAY: {
+      struct Array* a = obj;
+      LP("store out=:%s nitems=%zu nslots=%zu vals=[", n->out, a->nitems, a->nslots);
+      if (a->nitems > a->nslots) { snprintf(what, sizeof what, "Array nitems=%zu exceeds nslots=%zu", a->nitems, a->nslots); deviation(n, A_LINKS, lineno, what); }
+      else for (size_t i = 0; i < a->nitems; i++) LP("%s%lld", i ? " " : "", (long long)((struct Int*)Array_Item(a, i))->val);
+      LP("]");
+      break;
+    }
+    case M_TABLE: {
+      struct Table* t = obj; size_t occ = 0;
+      LP("slots out=:%s nitems=%zu nslots=%zu [", n->out, t->nitems, t->nslots);
+      for (size_t i = 0; i < t->nslots; i++) if (Table_Key_Hash(t, i) isnt 0) { LP("%s%zu:%lld", occ ? " " : "", i, (long long)((struct Int*)Table_Key(t, i))->val); occ++; }
+      LP("]");
+      if (occ != t->nitems) { snprintf(what, sizeof what, "Table nitems=%zu but %zu occupied slots", t->nitems, occ); deviation(n, A_LINKS, lineno, what); }
+      break;
+    }
+    default: {
+      struct Tree* m = obj; static int64_t keys[CAP + 8]; int bad = 0;
+      size_t k = tree_inorder(m, m->root, NULL, keys, 0, CAP, &bad);
+      LP("tree out=:%s nitems=%zu keys=[", n->out, m->nitems);
+      for (size_t i = 0; i < k; i++) LP("%s%lld", i ? " " : "", (long long)keys[i]);
+      LP("]");
+      for (size_t i = 1; i < k; i++) if (keys[i - 1] <= keys[i]) bad = 1;
+      if (bad || k != m->nitems) { snprintf(what, sizeof what, "Tree after the history: parent links / key order / nitems=%zu vs %zu nodes", m->nitems, k); deviation(n, A_LINKS, lineno, what); }
+      break;
+    }
+  }
+  { char* exp = malloc(n->nops + 1); Sh sh = shadow_of(n, exp);
+    if (strcmp(exp, n->out)) { snprintf(what, sizeof what, "outcomes of the mutations are :%s, by their documented meaning :%s", n->out, exp); deviation(n, A_MUT, lineno, what); }
+    free(exp); free(sh.v); }
+  O("%s", line);
+}
+static void op_layout(Node* n, size_t lineno) {
+  if (n->kind != K_MUT) { O("bad-op"); return; }
+  var exc; V_TRY(exc, op_layout_inner(n, lineno));
+  if (exc) O("construct=%s", v_exc_name(exc));
 }
 
 static void op_slice_arg(const char* l, size_t lineno) {
@@ -547,6 +850,7 @@ static void worker(char** lines, size_t n, size_t from) {
     st_ops++;
     if (l[0] == 'W' && l[1] == ' ') { Node* e = parse_line(l + 2); if (!e) O("bad-op"); else op_walk(e, li + 1); }
     else if (l[0] == 'V' && l[1] == ' ') { Node* e = parse_line(l + 2); if (!e) O("bad-op"); else op_walk_macro(e, li + 1); }
+    else if (l[0] == 'L' && l[1] == ' ') { Node* e = parse_line(l + 2); if (!e) O("bad-op"); else op_layout(e, li + 1); }
     else if (l[0] == 'S' && l[1] == ' ') op_slice_arg(l + 2, li + 1);
     else O("bad-op");
     sh->ops += 1; sh->items = st_items; sh->dev = st_dev; sh->kf = st_kf;
@@ -577,7 +881,7 @@ int main(int argc, char** argv) {
     if (k == (size_t)-1) { fprintf(stderr, "worker died before its first op\n"); return 3; }
     crashes++;
     O("crash");
-    Node* e = (lines[k][0] == 'W' || lines[k][0] == 'V') ? parse_line(lines[k] + 2) : NULL;
+    Node* e = (lines[k][0] == 'W' || lines[k][0] == 'V' || lines[k][0] == 'L') ? parse_line(lines[k] + 2) : NULL;
     const char* sig = e ? sig_for(e, A_CRASH) : "c11-crash";
     dev++; if (!strncmp(sig, "kf-", 3)) kf++;
     X("sig=%s line=%zu what=the library left the iteration protocol: worker %s %d", sig, k + 1,
